@@ -21,11 +21,14 @@
                         whose path lies strictly above another one is a Folder (what real trees satisfy at
                         any one time; boolean form class_ok);
      apart ps qs        no path of ps equals, lies below or lies above a path of qs.
-   [bp] selects the dependency test of _depends_on: false = the code as found (Resource equality is class
-   and path, containment asks the class), true = the proposed repair (paths only).  The harness decides on
-   every run which one the code under test is.
-   Domain restrictions, each shown necessary by a refutation below: [irrev k = false] (no removal, no
-   overwriting move among the performed leaves), and for bp = false [cok]. *)
+   [bp] selects the dependency test of _depends_on: true = paths only (equal, below or above), which is
+   what the code under test is EXPECTED to implement (/repo ed5101e); false = the test as found before that
+   fix (Resource equality is class and path, containment asks the class).  The headline statements below
+   are for bp = true and need no hypothesis on resource classes; the [_as_found] variants keep the
+   statement for bp = false under [cok] as documentation.  The harness runs the model with bp = true; a
+   code that behaves as bp = false again is a VIOLATION.
+   Domain restriction, shown necessary by the refutations below: [irrev k = false] (no removal, no
+   overwriting move among the performed leaves). *)
 From stdpp Require Import gmap list.
 From Coq Require Import NArith.
 From RopeVerif.C10 Require Import FsModel Change.
@@ -146,39 +149,72 @@ Print Assumptions C11_do_refused.
    tree it leaves is the replay, from the SAME initial tree, of the changes that remain: "the tree equals
    the one obtained by never having made them".  The new state is Consistent (after drop: see below). ---- *)
 Theorem C11_selective_undo :
-  forall (bp : bool) (f : nat) (ign : list (list N)) (s : hist) (i : nat) (drp : bool),
-    Consistent f s -> bp = true \/ cok (resources_list (h_undo s)) -> i < length (h_undo s) ->
+  forall (f : nat) (ign : list (list N)) (s : hist) (i : nat) (drp : bool),
+    Consistent f s -> i < length (h_undo s) ->
     exists s' base,
-      hstep bp repaired f ign (OUndo (Some i) drp) s quiet = SOk s' quiet (find_deps bp (h_undo s) i)
-      /\ h_undo s' = part false (marks bp (h_undo s) i) (h_undo s)
-      /\ h_redo s' = (if drp then h_redo s else h_redo s ++ rev (part true (marks bp (h_undo s) i) (h_undo s)))
+      hstep true repaired f ign (OUndo (Some i) drp) s quiet = SOk s' quiet (find_deps true (h_undo s) i)
+      /\ h_undo s' = part false (marks true (h_undo s) i) (h_undo s)
+      /\ h_redo s' = (if drp then h_redo s else h_redo s ++ rev (part true (marks true (h_undo s) i) (h_undo s)))
       /\ h_limit s' = h_limit s
       /\ wf_fs base /\ replay f base (h_undo s) (h_fs s) /\ replay f base (h_undo s') (h_fs s')
       /\ wf_fs (h_fs s')
       /\ (drp = false -> Consistent f s').
-Proof. exact selective_undo. Qed.
+Proof. exact (fun f ign s i drp Hc => selective_undo true f ign s i drp Hc (or_introl eq_refl)). Qed.
 Print Assumptions C11_selective_undo.
 
 Theorem C11_selective_redo :
-  forall (bp : bool) (f : nat) (ign : list (list N)) (s : hist) (i : nat),
-    Consistent f s -> bp = true \/ cok (resources_list (h_redo s)) -> i < length (h_redo s) ->
+  forall (f : nat) (ign : list (list N)) (s : hist) (i : nat),
+    Consistent f s -> i < length (h_redo s) ->
     exists s',
-      hstep bp repaired f ign (ORedo (Some i)) s quiet = SOk s' quiet (find_deps bp (h_redo s) i)
-      /\ h_redo s' = part false (marks bp (h_redo s) i) (h_redo s)
-      /\ h_undo s' = h_undo s ++ rev (part true (marks bp (h_redo s) i) (h_redo s))
+      hstep true repaired f ign (ORedo (Some i)) s quiet = SOk s' quiet (find_deps true (h_redo s) i)
+      /\ h_redo s' = part false (marks true (h_redo s) i) (h_redo s)
+      /\ h_undo s' = h_undo s ++ rev (part true (marks true (h_redo s) i) (h_redo s))
       /\ h_limit s' = h_limit s
       /\ Consistent f s'.
-Proof. exact selective_redo. Qed.
+Proof. exact (fun f ign s i Hc => selective_redo true f ign s i Hc (or_introl eq_refl)). Qed.
 Print Assumptions C11_selective_redo.
+
+(* the same two statements for the dependency test as found before ed5101e (bp = false): they need coherent
+   resource classes, see C11_class_blind_dependency_refuted *)
+Theorem C11_selective_undo_as_found :
+  forall (f : nat) (ign : list (list N)) (s : hist) (i : nat) (drp : bool),
+    Consistent f s -> cok (resources_list (h_undo s)) -> i < length (h_undo s) ->
+    exists s' base,
+      hstep false repaired f ign (OUndo (Some i) drp) s quiet = SOk s' quiet (find_deps false (h_undo s) i)
+      /\ h_undo s' = part false (marks false (h_undo s) i) (h_undo s)
+      /\ h_redo s' = (if drp then h_redo s else h_redo s ++ rev (part true (marks false (h_undo s) i) (h_undo s)))
+      /\ h_limit s' = h_limit s
+      /\ wf_fs base /\ replay f base (h_undo s) (h_fs s) /\ replay f base (h_undo s') (h_fs s')
+      /\ wf_fs (h_fs s')
+      /\ (drp = false -> Consistent f s').
+Proof. exact (fun f ign s i drp Hc Hk => selective_undo false f ign s i drp Hc (or_intror Hk)). Qed.
+Print Assumptions C11_selective_undo_as_found.
+
+Theorem C11_selective_redo_as_found :
+  forall (f : nat) (ign : list (list N)) (s : hist) (i : nat),
+    Consistent f s -> cok (resources_list (h_redo s)) -> i < length (h_redo s) ->
+    exists s',
+      hstep false repaired f ign (ORedo (Some i)) s quiet = SOk s' quiet (find_deps false (h_redo s) i)
+      /\ h_redo s' = part false (marks false (h_redo s) i) (h_redo s)
+      /\ h_undo s' = h_undo s ++ rev (part true (marks false (h_redo s) i) (h_redo s))
+      /\ h_limit s' = h_limit s
+      /\ Consistent f s'.
+Proof. exact (fun f ign s i Hc Hk => selective_redo false f ign s i Hc (or_intror Hk)). Qed.
+Print Assumptions C11_selective_redo_as_found.
 
 (* ---- the dependency scan is sound: a change that is NOT taken is apart from every resource of the
    chosen change and of the members before it ([okmarks]: at a non-member, [apart (roots c) acc] for the
    accumulated paths acc) ---- *)
 Theorem C11_closure_sound :
-  forall (bp : bool) (c : change) (T : list change),
-    bp = true \/ cok (resources_list (c :: T)) -> okmarks (roots c) (mark_scan bp (resources c) T) T.
-Proof. exact closure_sound. Qed.
+  forall (c : change) (T : list change), okmarks (roots c) (mark_scan true (resources c) T) T.
+Proof. exact (fun c T => closure_sound true c T (or_introl eq_refl)). Qed.
 Print Assumptions C11_closure_sound.
+
+Theorem C11_closure_sound_as_found :
+  forall (c : change) (T : list change),
+    cok (resources_list (c :: T)) -> okmarks (roots c) (mark_scan false (resources c) T) T.
+Proof. exact (fun c T H => closure_sound false c T (or_intror H)). Qed.
+Print Assumptions C11_closure_sound_as_found.
 
 (* ... and tight: a change is only taken along when one of its paths equals, lies below or lies above a
    path of the chosen change or of an earlier member ("precisely the later changes that touch the same
@@ -194,37 +230,47 @@ Print Assumptions C11_closure_tight.
    non-ignored resource and performs only exactly reversible leaves, also when refused half-way; an undo
    does not drop) keeps Consistent - successful or refused, last or chosen change, listed or not ---- *)
 Theorem C11_inv :
-  forall (bp : bool) (f : nat) (ign : list (list N)) (o : op) (s : hist),
+  forall (f : nat) (ign : list (list N)) (o : op) (s : hist),
     Consistent f s ->
-    bp = true \/ (cok (resources_list (h_undo s)) /\ cok (resources_list (h_redo s))) ->
-    step_ok ign o (hstep bp repaired f ign o s quiet) ->
-    Consistent f (sres_state (hstep bp repaired f ign o s quiet)).
-Proof. exact consistent_step. Qed.
+    step_ok ign o (hstep true repaired f ign o s quiet) ->
+    Consistent f (sres_state (hstep true repaired f ign o s quiet)).
+Proof. exact (fun f ign o s Hc => consistent_step true f ign o s Hc (or_introl eq_refl)). Qed.
 Print Assumptions C11_inv.
+
+Theorem C11_inv_as_found :
+  forall (f : nat) (ign : list (list N)) (o : op) (s : hist),
+    Consistent f s ->
+    cok (resources_list (h_undo s)) /\ cok (resources_list (h_redo s)) ->
+    step_ok ign o (hstep false repaired f ign o s quiet) ->
+    Consistent f (sres_state (hstep false repaired f ign o s quiet)).
+Proof. exact (fun f ign o s Hc Hk => consistent_step false f ign o s Hc (or_intror Hk)). Qed.
+Print Assumptions C11_inv_as_found.
 
 (* ---- the boolean predicates the harness evaluates on every case imply the hypotheses above ---- *)
 Theorem C11_domain_check_sound :
   forall (f : nat) (s : hist),
     (consistentb f s = true -> Consistent f s)
-    /\ (class_ok (resources_list (h_undo s)) = true -> cok (resources_list (h_undo s))).
+    /\ (class_ok (resources_list (h_undo s)) = true -> cok (resources_list (h_undo s))).   (* bp = false only *)
 Proof. exact (fun f s => conj (consistentb_sound f s) (class_ok_sound _)). Qed.
 Print Assumptions C11_domain_check_sound.
 
 (* ---- refutations: the faithful model does not satisfy the unrestricted statements; each witness is
-   replayed on rope by the harness (open findings) ---- *)
+   replayed on rope by the harness (open findings, except the class-blind one which is fixed) ---- *)
 (* RemoveResource.undo is NotImplementedError: the removed file is not restored by undo *)
 Theorem C11_remove_not_undoable_refuted :
   exists f ign c s s1 k1 d1 s2 k2,
     wf_fs (h_fs s) /\ undoable c = false
-    /\ hstep false repaired f ign (ODo c) s quiet = SOk s1 k1 d1 /\ irrev k1 = true
-    /\ hstep false repaired f ign (OUndo None false) s1 quiet = SErr s2 k2 (E NotImpl)
+    /\ hstep true repaired f ign (ODo c) s quiet = SOk s1 k1 d1 /\ irrev k1 = true
+    /\ hstep true repaired f ign (OUndo None false) s1 quiet = SErr s2 k2 (E NotImpl)
     /\ h_fs s !! pa = Some (File cA) /\ h_fs s2 !! pa = None /\ length (h_undo s2) = 1.
 Proof. exact remove_not_undoable_refuted. Qed.
 Print Assumptions C11_remove_not_undoable_refuted.
 
-(* _depends_on compares resources by class and path: a Folder created where a File was moved away from
+(* FIXED in /repo by ed5101e; kept as documentation of the as-found dependency test (bp = false), for which
+   the [_as_found] theorems need [cok].  A code that behaves like this again is reported as a VIOLATION.
+   _depends_on compared resources by class and path: a Folder created where a File was moved away from
    is not a dependency; the selective undo of the move puts the file INSIDE the new folder and leaves a
-   state that is not Consistent.  [cok] cannot be dropped from C11_selective_undo. *)
+   state that is not Consistent.  [cok] cannot be dropped from C11_selective_undo_as_found. *)
 Theorem C11_class_blind_dependency_refuted :
   exists s s' k' deps,
     Consistent 6 s /\ class_ok (resources_list (h_undo s)) = false
@@ -233,7 +279,7 @@ Theorem C11_class_blind_dependency_refuted :
 Proof. exact class_blind_dependency_refuted. Qed.
 Print Assumptions C11_class_blind_dependency_refuted.
 
-(* the same input under the path-comparing dependency test (bp = true, the proposed repair): the folder
+(* the same input under the path-comparing dependency test (bp = true, the code as fixed): the folder
    creation is taken along, the file is back in place, the state is Consistent *)
 Example C11_class_blind_dependency_repaired_example :
   exists s' k' deps,
@@ -247,8 +293,8 @@ Print Assumptions C11_class_blind_dependency_repaired_example.
 Theorem C11_move_overwrite_refuted :
   exists f ign c s s1 k1 d1 s2 k2 d2,
     wf_fs (h_fs s) /\ undoable c = true
-    /\ hstep false repaired f ign (ODo c) s quiet = SOk s1 k1 d1 /\ irrev k1 = true
-    /\ hstep false repaired f ign (OUndo None false) s1 quiet = SOk s2 k2 d2
+    /\ hstep true repaired f ign (ODo c) s quiet = SOk s1 k1 d1 /\ irrev k1 = true
+    /\ hstep true repaired f ign (OUndo None false) s1 quiet = SOk s2 k2 d2
     /\ h_fs s !! pb = Some (File cB) /\ h_fs s2 !! pb = None.
 Proof. exact move_overwrite_refuted. Qed.
 Print Assumptions C11_move_overwrite_refuted.
@@ -259,9 +305,9 @@ Print Assumptions C11_move_overwrite_refuted.
 Theorem C11_drop_stale_redo_refuted :
   exists s1 k1 d1 s2 k2 d2,
     Consistent 6 w_drop
-    /\ hstep false repaired 6 [] (OUndo None true) w_drop quiet = SOk s1 k1 d1
+    /\ hstep true repaired 6 [] (OUndo None true) w_drop quiet = SOk s1 k1 d1
     /\ consistentUb 6 s1 = true /\ consistentRb 6 s1 = false
-    /\ hstep false repaired 6 [] (ORedo None) s1 quiet = SOk s2 k2 d2
+    /\ hstep true repaired 6 [] (ORedo None) s1 quiet = SOk s2 k2 d2
     /\ irrev k2 = true
     /\ h_fs s2 !! pa = Some (File cA) /\ h_fs s2 !! pda = Some (File cC).
 Proof. exact drop_stale_redo_refuted. Qed.
@@ -272,30 +318,30 @@ Print Assumptions C11_drop_stale_redo_refuted.
    folder and a file in it); selective undo of the folder move takes the later edit with it and leaves the
    first and the last change: every hypothesis of C11_selective_undo holds, the selection is not LIFO *)
 Example C11_selective_undo_example :
-  Consistent 6 w_hist /\ cok (resources_list (h_undo w_hist)) /\ 1 < length (h_undo w_hist)
-  /\ find_deps false (h_undo w_hist) 1 = [1; 2]
-  /\ length (part false (marks false (h_undo w_hist) 1) (h_undo w_hist)) = 2.
+  Consistent 6 w_hist /\ 1 < length (h_undo w_hist)
+  /\ find_deps true (h_undo w_hist) 1 = [1; 2]
+  /\ length (part false (marks true (h_undo w_hist) 1) (h_undo w_hist)) = 2.
 Proof. exact selective_undo_example. Qed.
 Print Assumptions C11_selective_undo_example.
 
 (* after it, selective redo of the edit (first in the redo list) has to redo the folder move as well *)
 Example C11_selective_redo_example :
-  Consistent 6 w_hist2 /\ cok (resources_list (h_redo w_hist2)) /\ 0 < length (h_redo w_hist2)
-  /\ find_deps false (h_redo w_hist2) 0 = [0; 1].
+  Consistent 6 w_hist2 /\ 0 < length (h_redo w_hist2)
+  /\ find_deps true (h_redo w_hist2) 0 = [0; 1].
 Proof. exact selective_redo_example. Qed.
 Print Assumptions C11_selective_redo_example.
 
 Example C11_undo_do_example :
   exists s1 k1 deps,
     wf_fs (h_fs w_hist) /\ 0 < h_limit w_hist
-    /\ hstep false repaired 6 [] (ODo (CS 5 [MV pa [6%N; 1%N] false; CC [6%N; 1%N] cB None])) w_hist quiet = SOk s1 k1 deps
+    /\ hstep true repaired 6 [] (ODo (CS 5 [MV pa [6%N; 1%N] false; CC [6%N; 1%N] cB None])) w_hist quiet = SOk s1 k1 deps
     /\ irrev k1 = false /\ h_undo s1 <> h_undo w_hist.
 Proof. exact undo_after_do_example. Qed.
 Print Assumptions C11_undo_do_example.
 
 Example C11_limit_example :
   (length (h_undo (st w_tree 2)) + length (h_redo (st w_tree 2)) <= h_limit (st w_tree 2))
-  /\ length (h_undo (hsteps false repaired 6 [] w_ops (st w_tree 2))) = 2.
+  /\ length (h_undo (hsteps true repaired 6 [] w_ops (st w_tree 2))) = 2.
 Proof. exact limit_example. Qed.
 Print Assumptions C11_limit_example.
 
